@@ -32,16 +32,37 @@ Apply(o, a, b) ==
     ELSE IF o = "^" /\ ~IsIntQ(b.q) THEN IllTyped
     ELSE BinOp(o, a, b)
 
-RECURSIVE Value(_)
+\* The implementation computes in binary floating point.  Where a result depends discontinuously on its operands
+\* (%, equality, being zero) the documented value is demanded only if every intermediate result is exact in floating
+\* point as well: a small dyadic rational.  (5 % (5 / 7) is 0 in exact arithmetic and 0.714... in floating point.)
+Pow2 == {1, 2, 4, 8, 16, 32, 64, 128, 256, 512, 1024, 2048, 4096}
+DyadicV(v) == IsNum(v) => (v.q[2] \in Pow2 /\ Abs(v.q[1]) < 1048576)
+Discontinuous(o, a, b) == o = "%" \/ (o \in {"==", "!=", "<", "<=", ">", ">="} /\ IsNum(a) /\ IsNum(b) /\ Cmp(a.q, b.q) = 0)
+                          \/ (o \in {"and", "or"} /\ ((IsNum(a) /\ IsZero(a.q)) \/ (IsNum(b) /\ IsZero(b.q))))
+
+RECURSIVE Value(_), ExactV(_)
+Split(s) == LET ops == TopOps(s)
+                low == CHOOSE p \in {Prec(s[i].o) : i \in ops} : \A i \in ops : p <= Prec(s[i].o)
+                cands == {i \in ops : Prec(s[i].o) = low}
+            IN  IF low = 7 THEN CHOOSE i \in cands : \A j \in cands : i <= j       \* ^ groups right to left
+                ELSE CHOOSE i \in cands : \A j \in cands : i >= j                  \* the others left to right
+ExactV(s) ==
+    IF s = <<>> THEN TRUE
+    ELSE IF TopOps(s) # {} THEN LET k == Split(s) IN ExactV(SubSeq(s, 1, k - 1)) /\ ExactV(SubSeq(s, k + 1, Len(s))) /\ DyadicV(Value(s))
+    ELSE IF s[1].t = "neg" THEN ExactV(Tail(s))
+    ELSE IF s[1].t = "lp" /\ s[Len(s)].t = "rp" THEN ExactV(SubSeq(s, 2, Len(s) - 1))
+    ELSE DyadicV(Value(s))
 Value(s) ==
     IF s = <<>> THEN IllTyped
     ELSE LET ops == TopOps(s)
          IN  IF ops # {}
-             THEN LET low == CHOOSE p \in {Prec(s[i].o) : i \in ops} : \A i \in ops : p <= Prec(s[i].o)
-                      cands == {i \in ops : Prec(s[i].o) = low}
-                      k == IF low = 7 THEN CHOOSE i \in cands : \A j \in cands : i <= j       \* ^ groups right to left
-                           ELSE CHOOSE i \in cands : \A j \in cands : i >= j                  \* the others left to right
-                  IN  Apply(s[k].o, Value(SubSeq(s, 1, k - 1)), Value(SubSeq(s, k + 1, Len(s))))
+             THEN LET k == Split(s)
+                      l == SubSeq(s, 1, k - 1)
+                      r == SubSeq(s, k + 1, Len(s))
+                      a == Value(l)
+                      b == Value(r)
+                  IN  IF ~Unsure(a) /\ ~Unsure(b) /\ Discontinuous(s[k].o, a, b) /\ ~(ExactV(l) /\ ExactV(r)) THEN IllTyped
+                      ELSE Apply(s[k].o, a, b)
              ELSE IF s[1].t = "neg" THEN LET v == Value(Tail(s))
                                          IN  IF Unsure(v) THEN v ELSE IF ~IsNum(v) THEN IllTyped ELSE Wrap(Neg(v.q), v.f)
              ELSE IF s[1].t = "lp" /\ s[Len(s)].t = "rp" THEN Value(SubSeq(s, 2, Len(s) - 1))
@@ -85,6 +106,8 @@ VARIABLES i, bad
 vars == <<i, bad>>
 
 RECURSIVE NumClose(_, _, _)
+\* a zero reached through inexact intermediate results may be a tiny non-zero number in the implementation (truthiness!)
+TopValue(s) == LET v == Value(s) IN IF IsNum(v) /\ IsZero(v.q) /\ ~ExactV(s) THEN IllTyped ELSE v
 NumClose(q, m, s) == LET p == Mul(q, I(s))
                      IN  IF Good(p) THEN m \in (Floor(p) - 2)..(Floor(p) + 2)
                          ELSE IF s >= 10 THEN NumClose(q, m \div 10, s \div 10) ELSE FALSE
@@ -99,7 +122,7 @@ Observed(v, o) ==
       [] o.kind = "none" -> FALSE               \* the statement produced nothing usable (the script stopped, or printed something else)
 RowOk(r) ==
     IF r.kind = "builtin" THEN BuiltinOk(r)
-    ELSE LET v == Value(r.toks)
+    ELSE LET v == TopValue(r.toks)
          IN  IF Unsure(v) THEN r.skip                 \* the harness must not have placed an undecided list
              ELSE ~r.skip /\ Observed(v, r.obs)
 
@@ -113,7 +136,7 @@ Spec == Init /\ [][Next]_vars
 Done == i = N + 1 => PrintT(ToJson([done |-> TRUE, rows |-> N, bad |-> bad]))
 
 \* generation mode: the value of every list in the batch (no observation yet) - spec -> code
-Values == \A k \in 1..N : PrintT(ToJson([id |-> Rows[k].id, v |-> Value(Rows[k].toks)]))
+Values == \A k \in 1..N : PrintT(ToJson([id |-> Rows[k].id, v |-> TopValue(Rows[k].toks)]))
 GenInit == Values /\ i = 1 /\ bad = 0
 GenNext == FALSE /\ UNCHANGED vars
 =============================================================================
